@@ -1321,6 +1321,102 @@ def replay_param_rules(a):
     return {"reproduced": bool(real), "mismatches": out[:4], "data": data}
 
 
+def rule_status_semantics(a):
+    """RootScope::rule_status: cached answer, else the first definition whose status is not SKIP decides"""
+    RS = struct_fields(a.src, "rules/eval_context.rs", "RootScope")
+    ex = a.exec(SCOPE_IMPL + "rule_status", {"get": mirexec.m_option, "eval_rule": mirexec.m_result_status, "next": mirexec.m_iter_next,
+                                             "into_iter": mirexec.m_new_iter, "iter": mirexec.m_new_iter,
+                                             "ne": lambda ex, av: ("bool", f"(not (= {av[0][2]} {av[1][2]}))") if len(av) == 2 and av[0][0] == "enum" and av[1][0] == "enum" else ex.havoc("bool")},
+                log=("insert",), unroll=2, max_paths=20000, first_arg_re=r"_1: &mut (?:eval_context::)?RootScope")
+    a.fns.append("rules::eval_context::RootScope::rule_status (semantics)")
+    me, name = ex.arg_env["_1"], ex.arg_env["_2"]
+    cache = field(ex, me, RS.index("rules_status"), "HashMap")
+    rules = field(ex, me, RS.index("rules"), "HashMap")
+    S = a.S
+    bad, ndef = [], 0
+    for p in ex.paths:
+        r = p.ret
+        if p.outcome != "return" or not r or r[0] != "enum" or r[1] != "Result":
+            bad.append(pc_term(p.pc))
+            continue
+        gets = calls(p, "get")
+        evs = calls(p, "eval_rule")
+        ins = calls(p, "insert")
+        cg = [g for g in gets if same(g[2][0], cache)]
+        rg = [g for g in gets if same(g[2][0], rules)]
+        if len(cg) != 1 or not same(cg[0][2][1], name):
+            bad.append(pc_term(p.pc))
+            continue
+        hit = f"(= {cg[0][3][2]} 1)"
+        okst = r[3].get("Ok")
+        parts = []
+        if not evs and not rg:
+            # answered from the cache
+            cv = cg[0][3][3].get("Some")
+            parts.append(hit)
+            parts.append(f"(= {r[2]} 0)")
+        else:
+            parts.append(f"(not {hit})")
+            if len(rg) != 1 or not same(rg[0][2][1], name):
+                parts.append("false")
+            else:
+                found = f"(= {rg[0][3][2]} 1)"
+                parts.append(f"(=> (not {found}) (= {r[2]} 1))")
+                # definitions are evaluated in order until one is not SKIP; all SKIP -> SKIP; an error stops
+                sts = [(e[3][2], e[3][3]["Ok"][2]) for e in evs]
+                ndef += len(sts)
+                for j, (t, st) in enumerate(sts[:-1]):
+                    parts.append(f"(and (= {t} 0) (= {st} {S}))")          # a later definition is only reached past SKIPs
+                if sts and okst is not None and okst[0] == "enum":
+                    t, st = sts[-1]
+                    parts.append(f"(=> (= {r[2]} 0) (and (= {t} 0) (= {okst[2]} {st})))")
+                    parts.append(f"(=> (= {t} 1) (= {r[2]} 1))")
+                elif not sts and okst is not None and okst[0] == "enum":
+                    parts.append(f"(=> (and {found} (= {r[2]} 0)) (= {okst[2]} {S}))")
+                # what is cached is what is returned, under this name
+                if ins:
+                    okc = len(ins) == 1 and same(ins[0][2][0], cache) and same(ins[0][2][1], name)
+                    parts.append("true" if okc else "false")
+                else:
+                    parts.append(f"(= {r[2]} 1)")
+        bad.append(f"(and {pc_term(p.pc)} (not (and {' '.join(parts)})))")
+    c = a.discharge("RootScope::rule_status/first-non-skip", ex, bad,
+                    f"status of a rule referenced by name, <= 2 definitions of that name ({ndef} evaluations over all paths): a cached "
+                    "status is returned without evaluating anything; otherwise the definitions are evaluated in order, the first one whose "
+                    "status is not SKIP decides (all SKIP -> SKIP), an unknown name or an evaluation error is an error, and the status "
+                    "returned is cached under that name")
+    if c:
+        c["replay"] = replay_named_rules(a)
+        c["reproduced"] = c["replay"].get("reproduced", False)
+        a.candidates.append(c)
+
+
+def replay_named_rules(a):
+    exe = a.cli()
+    if not exe:
+        return {"reproduced": False, "note": "native build failed"}
+    data = '{"a": 1,\n "b": 2}\n'
+    # `t` refers to `d`, defined twice: [SKIP, PASS] / [SKIP, FAIL] / [PASS, FAIL] / [FAIL, PASS] / [SKIP, SKIP]; before and after its user
+    defs = {"SKIP": "rule d when a == 9 { a == 1 }", "PASS": "rule d { a == 1 }", "FAIL": "rule d { a == 2 }"}
+    out = []
+    for first, second, exp in (("SKIP", "PASS", "PASS"), ("SKIP", "FAIL", "FAIL"), ("PASS", "FAIL", "PASS"), ("FAIL", "PASS", "FAIL"), ("SKIP", "SKIP", "FAIL")):
+        for order in ("before", "after"):
+            user = "rule t {\n  d\n}\nrule u {\n  d\n}\n"
+            dd = defs[first] + "\n" + defs[second] + "\n"
+            rules = (dd + user) if order == "before" else (user + dd)
+            rc, rep, err = a.run_structured(exe, rules, [data])
+            if not (rep and isinstance(rep, list) and rep):
+                out.append({"rules_file": rules, "problem": "no report", "exit": rc})
+                continue
+            r_ = rep[0]
+            for nm in ("t", "u"):
+                got = "PASS" if nm in r_.get("compliant", []) else ("SKIP" if nm in r_.get("not_applicable", []) else "FAIL")
+                if got != exp:
+                    out.append({"rules_file": rules, "rule": nm, "expected": exp, "observed": got})
+    real = [o for o in out if "problem" not in o]
+    return {"reproduced": bool(real), "mismatches": out[:4], "data": data}
+
+
 def report_rule_listing(a):
     """report_all_failed_clauses_for_rules over one record: a FAIL rule record is always listed (one ClauseReport::Rule with
     that rule's name), whatever its children yield; a PASS / SKIP rule record contributes nothing"""
@@ -1411,6 +1507,8 @@ SITES = {
     "C16": [test_generic_report, test_get_by_result, test_get_by_rules],
     "C09": [report_partition, report_rule_listing],
     "C15": [scope_resolution, param_rule_call],
+    "C04": [rule_status_semantics],
+    "C01": [rule_status_semantics],
     "C17": [merge_map, merge_unwrap],
     "C08": [merge_unwrap],
 }
